@@ -1028,3 +1028,22 @@ class C15(Base):
         for v in ([F(3, 5), F(4, 5), F(0)], [F(1), F(0), F(0)], [F(0), F(3, 5), F(-4, 5)], [F(0), F(0), F(1)]):
             out.append(Case("o.arc.special", v, family="oracle-exact-opposite"))
         return out
+
+
+BOOK_TECH = ("Lean 4 theorems about a generic model of the traversal (any scalar-level behaviour as a parameter) + exhaustive "
+             "configuration-level correspondence on the native types (every compound type x position x scalar type), the "
+             "per-component results fed through the Lean model")
+
+
+@prop("C19")
+class C19(Base):
+    title = "numeric cast of compound values is all-or-nothing and component-faithful"
+    design_ref = "§6 C19"
+    ops = []
+    technique = BOOK_TECH
+    level_note = ("Trusted: Lean kernel + Mathlib; num_traits::NumCast on scalars is the parameter `f` of the model (its results "
+                  "are read off the implementation and fed to the model); the tie is exhaustive over 12x12 scalar pairs x 11 "
+                  "compound types x component positions with boundary values, not a proof about the Rust source.")
+
+    def native_args(self, tier, seed):
+        return ["native", "c19", "1000000", str(seed)]
